@@ -1,9 +1,13 @@
 From Coq Require Import QArith List String Bool.
 From FV Require Import Base.Ser Base.Res C05.Model.
+From FV Require C05.ModelVarIdx.
 Import ListNotations.
 Open Scope string_scope.
 Definition iup_delta_red (deltas : list (option pt)) (coords : list pt) (ends : list nat) : list pt := iup_delta deltas coords ends.
 Definition reg : registry := [
-  ("iup_delta", run3 iup_delta_red)
+  ("iup_delta", run3 iup_delta_red);
+  ("getEntryFormat", run1 ModelVarIdx.getEntryFormat);
+  ("dsim_compile", run1 ModelVarIdx.dsim_compile);
+  ("dsim_decompile", run1 ModelVarIdx.dsim_decompile)
 ].
 Definition fv_entry := dispatch reg.
